@@ -74,7 +74,7 @@ def gen_script(r):
         op = r.choice(ops)
         arg = None
         if op == 'send':
-            arg = bytes(r.getrandbits(8) for _ in range(r.choice((0, 1, 5, 300, 70000))))
+            arg = bytes(r.getrandbits(8) for _ in range(r.choice((0, 1, 5, 300, 3000))))     # never fills the socket buffer
             if not me['closed'] and not peer['closed']:
                 peer['inbox'] += 1
         elif op == 'recv':
